@@ -31,6 +31,7 @@ fn tie_verify(out: &mut Out, inst: &Inst, stmt: &Stmt, proof: &Proof, tag: &str)
     tap::start();
     fm::tap_start();
     let r = Proof::verify_batch(&mut [vt], std::slice::from_ref(stmt), std::slice::from_ref(proof), VerifyAction::VerifyOnly);
+    let whole = fm::tap_is_whole_check();
     let residuals = fm::tap_take();
     let vrecs = tap::take();
     if let Some(ch) = fmx::chal_of(&vrecs, vid) {
@@ -41,7 +42,7 @@ fn tie_verify(out: &mut Out, inst: &Inst, stmt: &Stmt, proof: &Proof, tag: &str)
             let parts = fmx::parts(proof);
             out.req(
                 format!("verify {} {} {} w={}", fmx::stmt_wire(&i2, &stmt.generators, &stmt.commitments), parts.wire(), ch.wire(), w.first().map(hs).unwrap_or("00".into())),
-                format!("res={} verdict={} msms={} tag={}", fmx::vstr(res), if r.is_ok() { "ok" } else { "err" }, residuals.len(), tag),
+                format!("res={} verdict={} msms={} whole={} tag={}", fmx::vstr(res), if r.is_ok() { "ok" } else { "err" }, residuals.len(), whole as u8, tag),
             );
         }
     }
@@ -298,6 +299,7 @@ pub fn c08(opts: &Opts, out: &mut Out) {
         let pr = fmrun::params(n, 2, t);
         let ids = fmx::gen_ids(&pr, n);
         // run a batch with given offsets on d1, r1 and s1; return (ok, residual, logged weights)
+        let whole_flag = std::cell::Cell::new(true);
         let run3 = |offsets: &Vec<Vec<Scalar>>, r1off: &Vec<Scalar>, s1off: &Vec<Scalar>| -> (bool, FP, Vec<Scalar>) {
             let ps: Vec<Proof> = proofs
                 .iter()
@@ -316,6 +318,9 @@ pub fn c08(opts: &Opts, out: &mut Out) {
             tap::start();
             fm::tap_start();
             let r = Proof::verify_batch(&mut ts, &stmts, &ps, VerifyAction::VerifyOnly);
+            if !fm::tap_is_whole_check() {
+                whole_flag.set(false);
+            }
             let res = fm::tap_take().last().cloned().unwrap_or_default();
             let recs = tap::take();
             (r.is_ok(), res, fmx::weights_of(&recs))
@@ -338,15 +343,20 @@ pub fn c08(opts: &Opts, out: &mut Out) {
                     // run A: perturb member i only -> residual = w_i * delta on Gb_kk reveals the factor w_i
                     let mut oa = zero.clone();
                     oa[i][kk] = delta;
-                    let (oka, ra, _) = run(&oa, &zr);
-                    let fi = ra.coord(ids.gb[kk]) * delta.invert();
+                    let (oka, ra, wa) = run(&oa, &zr);
+                    let whole = whole_flag.get();
+                    // factors are read from the residual while the tapped MSM is the whole final check; otherwise (a
+                    // rewrite split the check) from the logged weights, and the residual-based oracles are skipped
+                    let fi = if whole { ra.coord(ids.gb[kk]) * delta.invert() } else { wa.get(i).copied().unwrap_or(Scalar::ONE) };
                     // run B: perturb member j only
                     let mut ob = zero.clone();
                     ob[j][kk] = delta;
-                    let (okb, rb, _) = run(&ob, &zr);
-                    let fj = rb.coord(ids.gb[kk]) * delta.invert();
+                    let (okb, rb, wb) = run(&ob, &zr);
+                    let fj = if whole { rb.coord(ids.gb[kk]) * delta.invert() } else { wb.get(j).copied().unwrap_or(Scalar::ONE) };
                     out.oracle("C08:single-defect-rejected", !oka && !okb, &key, "a batch with one perturbed member was accepted");
-                    out.oracle("C08:factor-nonzero", fi != Scalar::ZERO && fj != Scalar::ZERO, &key, "a proof enters the batch with factor zero");
+                    if whole {
+                        out.oracle("C08:factor-nonzero", fi != Scalar::ZERO && fj != Scalar::ZERO, &key, "a proof enters the batch with factor zero");
+                    }
                     if fj == Scalar::ZERO {
                         continue;
                     }
@@ -365,6 +375,10 @@ pub fn c08(opts: &Opts, out: &mut Out) {
                     let fi_c = (rc.coord(ids.gb[kk])) ;
                     let _ = fi_c;
                     // ratio changes when only r1 of member i changes
+                    if !whole {
+                        classes.insert((n, k, t, kk));
+                        continue;
+                    }
                     let mut zr2 = zr.clone();
                     zr2[i] = Scalar::ONE;
                     let (_, rd, _) = run(&oa, &zr2);
